@@ -127,6 +127,37 @@ Theorem C18_normalize_classes :
 Proof. exact normalize_classes. Qed.
 Print Assumptions C18_normalize_classes.
 
+(* From the raw sniffed value to the target.  lt = the sniffed value with blanks trimmed and lower-cased.
+   For every lt whose host the spec names (spec_sniffed_host: names, names with a port, IPv4/IPv6 literals
+   bare, bracketed, with a port, trailing dot; see C18_Spec.v), NormalizeDomain followed by
+   ChooseDialTarget decides as the table says for the class of that host, and the target is well-formed:
+   net.SplitHostPort accepts it, its host is the sniffed host (no bracket, no port) or the original IP,
+   its port is the destination port. *)
+Theorem C18_sniffed_to_target :
+  forall (is_ip : str -> bool) mode outbound dst lt h l,
+    spec_sniffed_host is_ip lt = Some h ->
+    let k := knowledge_of is_ip l in
+    let c := classify is_ip h in
+    let r := is_reserved outbound in
+    let o := choose_dial_target is_ip mode outbound dst (normalize_lowered lt) l in
+    o_use_name o = spec_use_name is_ip mode r c k /\
+    o_reroute o = spec_reroute is_ip mode r c k /\
+    (dest_wf dst = true ->
+     exists th tp, split_host_port (o_target o) = Some (th, tp) /\
+                   (th, tp) = spec_endpoint is_ip mode r (d_ip dst) (d_port dst) c k /\
+                   (th = h \/ th = d_ip dst) /\ tp = itoa (d_port dst) /\ no_brackets th = true).
+Proof. exact sniffed_to_target. Qed.
+Print Assumptions C18_sniffed_to_target.
+
+(* the classes of the quantifier really are named by the spec (non-vacuity of the hypothesis above) *)
+Example C18_sniffed_classes :
+  map (spec_sniffed_host nv_is_ip)
+      [bs "example.com"; bs "example.com."; bs "example.com:8443"; bs "1.2.3.4"; bs "1.2.3.4:80"; bs "::1";
+       bs "[::1]"; bs "[::1]:8080"; bs ""; bs "[::1"; bs "a:b:c"]%string =
+  [Some (bs "example.com"); Some (bs "example.com"); Some (bs "example.com"); Some (bs "1.2.3.4");
+   Some (bs "1.2.3.4"); Some (bs "::1"); Some (bs "::1"); Some (bs "::1"); Some []; None; None]%string.
+Proof. vm_compute. reflexivity. Qed.
+
 (* chooseProxyDialer: for every state reachable by a history (Inv: the state is what the past events say)
    the outbound finally used is the routing result exactly when the flow is routed again (or arrived
    marked for control-plane routing), and the dial target handed to the node dialer obeys the decision
